@@ -175,7 +175,10 @@ func runC17Once(c c17OnceCase, rec *c17Recorder) (o c17OnceObs) {
 	})
 
 	// call ids and which calls are "free" (no slow key among them and their predecessors)
-	type call struct{ tid, key int; free bool }
+	type call struct {
+		tid, key int
+		free     bool
+	}
 	plan := make([][]call, len(c.seqs))
 	tid, freeTotal := 0, 0
 	for g, ks := range c.seqs {
@@ -739,7 +742,10 @@ func evalC17Handoff() Result {
 // ---------------------------------------------------------------- histories: the property read on recorded events
 
 func directC17HistOnce(evs []string) (string, bool) {
-	type cl struct{ key int; open bool }
+	type cl struct {
+		key  int
+		open bool
+	}
 	calls := map[int]*cl{}
 	starts := map[int]int{}
 	built := map[int]string{}
